@@ -6,6 +6,7 @@ pub mod report;
 pub mod rng;
 
 pub mod refqual;
+pub mod spec_tape;
 pub mod refz80;
 pub mod z80diff;
 pub mod z80work;
@@ -18,6 +19,10 @@ mod c05;
 mod c06;
 mod c07;
 mod c08;
+mod c09;
+mod c10;
+mod c11;
+mod c12;
 mod c17;
 
 use report::{Ctx, Evidence, Tier};
@@ -61,6 +66,10 @@ fn checks() -> Vec<(&'static str, CheckFn)> {
         ("C06", c06::run as CheckFn),
         ("C07", c07::run as CheckFn),
         ("C08", c08::run as CheckFn),
+        ("C09", c09::run as CheckFn),
+        ("C10", c10::run as CheckFn),
+        ("C11", c11::run as CheckFn),
+        ("C12", c12::run as CheckFn),
         ("C17", c17::run as CheckFn),
         ("REFQUAL", refqual::run as CheckFn),
     ]
